@@ -2,6 +2,7 @@ package dbsim
 
 import (
 	"context"
+	"errors"
 	"fmt"
 	"net/http"
 	"net/http/httptest"
@@ -11,6 +12,7 @@ import (
 	"time"
 
 	"github.com/cilium/statedb"
+	"verifharness/vkit"
 )
 
 // Remote access: the database's HTTP handler served on a loopback listener and queried through statedb.RemoteTable. The
@@ -61,7 +63,7 @@ func (s *Sim) remoteBattery(what string, t *simTable, m *TableModel) {
 		}
 		probes = append(probes, Probe{Index: "rev", Kind: "lowerbound", Key: string(k[:])})
 	}
-	ctx, cancel := context.WithTimeout(context.Background(), 20*time.Second)
+	ctx, cancel := context.WithTimeout(context.Background(), vkit.Patient(60*time.Second))
 	defer cancel()
 	for _, p := range probes {
 		if p.Index == "pfx" || p.Index == "l" || p.Kind == "prefix" {
@@ -82,6 +84,11 @@ func (s *Sim) remoteBattery(what string, t *simTable, m *TableModel) {
 			lp.Kind = "list"
 		}
 		if err := <-errs; err != nil {
+			if errors.Is(err, context.DeadlineExceeded) {
+				// a wall-clock deadline on a loaded machine decides nothing (responsiveness is C10's subject, judged there)
+				s.R.Inconclusive(fmt.Sprintf("%s table %s: remote %s did not answer within the deadline: %v", what, t.name, p, err))
+				return
+			}
 			s.Violate("query", "remote-error", "%s table %s: remote %s: %v", what, t.name, p, err)
 			return
 		}
